@@ -87,6 +87,28 @@ PipeVerdict(c) ==
           ELSE IF ~c.malformed /\ ~("nostate" \in DOMAIN c /\ c.nostate) /\ ~StateEq(exp.s, JState(c.s)) THEN "keyspace after the pipeline differs from the sequential run"
           ELSE "ok"
 
+
+(* After a protocol error: a malformed frame (c.junk, or its twin of the same shape when the frame is large), cut into *)
+(* several reads, then well-formed commands in later reads.  Replies owed: the prefix's, then one or more error       *)
+(* replies for the frame, then - unless the handler closed the connection (segments left unread) - one per later      *)
+(* command.  Silence towards a client whose connection is still open is a hang.                                        *)
+RecoverVerdict(c) ==
+  IF "panic" \in DOMAIN c THEN "connection handler panicked"
+  ELSE LET n == Len(c.cmds)
+           pre == c.npre
+           exp == RunSeq(c.cmds, 1, Empty)
+           R0 == c.replies
+           nr == Len(R0)
+           Ks == {k \in 1..(nr - pre) : \A i \in 1..k : R0[pre + i].t = "error"}
+       IN IF nr < pre THEN "fewer replies than commands (a command was swallowed or the handler hung)"
+          ELSE IF \E i \in 1..pre : ~ReplyOk(exp.rs[i], R0[i]) THEN "a damaged frame altered the reply to an earlier command"
+          ELSE IF R!Decode(c.junk).k # "err" THEN "ok"
+          ELSE IF Ks = {} THEN "a malformed frame was not answered by an error reply (silence or a hang)"
+          ELSE IF c.unread > 0 THEN "ok"
+          ELSE IF \E k \in Ks : nr = pre + k + (n - pre) /\ \A i \in 1..(n - pre) : ReplyOk(exp.rs[pre + i], R0[pre + k + i]) THEN "ok"
+          ELSE IF nr < n + 1 THEN "after a protocol error the connection stayed open but later commands were not answered (silence)"
+          ELSE "after a protocol error the replies to later commands differ from the sequential run"
+
 ---------------------------------------------------------------------------
 (* Transactions (C05).  A case is a script of steps by client A (the transaction *)
 (* client) and client B (writes between A's commands), each with the reply the   *)
@@ -175,7 +197,7 @@ WatchCaseVerdict(c) ==
        ELSE IF ~c.changed /\ (c.exec.t # "array" \/ ~c.applied) THEN "EXEC of an unchanged watch did not apply its body"
        ELSE "ok"
 
-Verdict(c) == IF c.t = "pipe" THEN PipeVerdict(c) ELSE IF c.t = "wcase" THEN WatchCaseVerdict(c) ELSE TxnVerdict(c)
+Verdict(c) == IF c.t = "pipe" THEN PipeVerdict(c) ELSE IF c.t = "recover" THEN RecoverVerdict(c) ELSE IF c.t = "wcase" THEN WatchCaseVerdict(c) ELSE TxnVerdict(c)
 TraceInit == l = 1
 TraceNext ==
   \/ /\ l <= Len(Rec)
